@@ -18,7 +18,7 @@ RULE = ("case 'exp' = (matrix, ordered pair of writers (w1, w2) out of arxml, cs
         "Matrices include long names (> 32 characters), free signals, cycle times, duplicate frame names, receiver lists not yet "
         "propagated to the frames, multiplex groups with many values, attributes with definitions. quick: every ordered pair on 1 "
         "matrix per shard + random pairs; thorough: every ordered pair on 20 matrices. case 'seeds' = the same exports in "
-        "The 'seeds' case also exports every matrix in the long-running process after a variant of it (same names, other value texts, comments, units) and compares with a fresh process. The process state decoding depends on (decimal context) is compared before and after every export; comments over two lines occur. subprocesses under 6 (thorough: 12) values of PYTHONHASHSEED, always including a frame with 15 multiplex groups. One matrix in seven has a frame whose length was never set (0) although it has signals. Further configurations of the writers (options of formats.dump: csv delimiters, bit notations and attribute columns of csv/xls/json, encodings of dbc/dbf/sym, dbc without compatibility names and value tables, arxml 3, json native types) are paired with every configuration of the same format in both orders and with random configurations. Matrices also have frames of their own named VECTOR__INDEPENDENT_SIG_MSG (with and without signals without frame), the ECU name Vector__XXX as a transmitter/receiver, definitions of their own under the names the writers define (GenMsgCycleTime, VFrameFormat, GenSigStartValue, System...LongSymbol, BusType) and texts outside ASCII. 'unchanged' also compares what the matrix answers to lookups by name and identifier (frame_by_name, get_frame_by_name, frame_by_id, get_frame_by_id, ecu_by_name, for every name/identifier in the matrix, the reserved ones and all keys of the lookup dictionaries); decoding is also done through CanMatrix.decode. Every 'exp' case starts from the decimal context of a fresh interpreter. In the 'seeds' case every subprocess has its own export history (listed order, reverse order, shuffles of the (configuration, matrix) pairs) and the long-running process exports a variant with every other configuration of the same writer first. One number occurs in several spellings in one matrix (0.5 and 0.50, 1 and 1.00, 100 and 1E+2) and in the variants (every number respelled); the signals of a multiplexed frame are listed in any order and frames carry sym's Sendable/Receivable attributes, so that the writers visit the numbers in different orders. Every export an 'exp' case makes in the long-running process (w1, w1 on a fresh copy, w2 after w1, w2 on a fresh copy) is compared with the same export made ALONE in a fresh process (lib/export_worker.py --serve: a process that has done the imports and exported nothing forks one child per run), and a fresh process with a history of its own (variant to w1, matrix to w1, the same object to w2) is compared with them too (thorough: every case; quick: every random case and a quarter of the exhaustive pairs per shard, rotating). Matrices also have the rarely filled parts (45 %): PDUs inside frames with signals and signal groups of their own (frame.pdus, as the arxml reader keeps container I-PDUs; also frames that are nothing but the container and decode through their header signals), PDU name and header id, signal groups, names and comments per multiplexer value, named value tables, environment variables, baud rates, start values, cycle times and value-table names of signals. 'unchanged' also compares the whole object graph under the matrix field by field without a list of known fields (`everything`: every attribute of every reachable object, list and dictionary orders, types and spellings of numbers, which places hold the same object; only CanMatrix's lookup tables are left to the lookups), and decoding covers the nested results of container frames. Every 'exp' case exports the matrix to w1 once more, alone in a fresh process that runs in ANOTHER ENVIRONMENT (c.env: time zone out of five incl. LINT-14 and AOE12 which are never on the same date, clock moved by 0 / 7 h / 3 days / -400 days / 10 years for everything that reads it through time or datetime, other user/home/host name, working directory, locale) and demands the bytes of the export made alone here; in the 'seeds' case every subprocess has its own environment as well as its own hash seed and history (the first two in the two time zones 26 hours apart). Non-trivial = every distinct case (each exercises >= 1 writer).")
+        "The 'seeds' case also exports every matrix in the long-running process after a variant of it (same names, other value texts, comments, units) and compares with a fresh process. The process state decoding depends on (decimal context) is compared before and after every export; comments over two lines occur. subprocesses under 6 (thorough: 12) values of PYTHONHASHSEED, always including a frame with 15 multiplex groups. One matrix in seven has a frame whose length was never set (0) although it has signals. Further configurations of the writers (options of formats.dump: csv delimiters, bit notations and attribute columns of csv/xls/json, encodings of dbc/dbf/sym, dbc without compatibility names and value tables, arxml 3, json native types) are paired with every configuration of the same format in both orders and with random configurations. Matrices also have frames of their own named VECTOR__INDEPENDENT_SIG_MSG (with and without signals without frame), the ECU name Vector__XXX as a transmitter/receiver, definitions of their own under the names the writers define (GenMsgCycleTime, VFrameFormat, GenSigStartValue, System...LongSymbol, BusType) and texts outside ASCII. 'unchanged' also compares what the matrix answers to lookups by name and identifier (frame_by_name, get_frame_by_name, frame_by_id, get_frame_by_id, ecu_by_name, for every name/identifier in the matrix, the reserved ones and all keys of the lookup dictionaries); decoding is also done through CanMatrix.decode. Every 'exp' case starts from the decimal context of a fresh interpreter. In the 'seeds' case every subprocess has its own export history (listed order, reverse order, shuffles of the (configuration, matrix) pairs) and the long-running process exports a variant with every other configuration of the same writer first. One number occurs in several spellings in one matrix (0.5 and 0.50, 1 and 1.00, 100 and 1E+2) and in the variants (every number respelled); the signals of a multiplexed frame are listed in any order and frames carry sym's Sendable/Receivable attributes, so that the writers visit the numbers in different orders. Every export an 'exp' case makes in the long-running process (w1, w1 on a fresh copy, w2 after w1, w2 on a fresh copy) is compared with the same export made ALONE in a fresh process (lib/export_worker.py --serve: a process that has done the imports and exported nothing forks one child per run), and a fresh process with a history of its own (variant to w1, matrix to w1, the same object to w2) is compared with them too (thorough: every case; quick: every random case and a quarter of the exhaustive pairs per shard, rotating). Matrices also have the rarely filled parts (45 %): PDUs inside frames with signals and signal groups of their own (frame.pdus, as the arxml reader keeps container I-PDUs; also frames that are nothing but the container and decode through their header signals), PDU name and header id, signal groups, names and comments per multiplexer value, named value tables, environment variables, baud rates, start values, cycle times and value-table names of signals. 'unchanged' also compares the whole object graph under the matrix field by field without a list of known fields (`everything`: every attribute of every reachable object, list and dictionary orders, types and spellings of numbers, which places hold the same object; only CanMatrix's lookup tables are left to the lookups), and decoding covers the nested results of container frames. Every 'exp' case exports the matrix to w1 once more, alone in a fresh process that runs in ANOTHER ENVIRONMENT (c.env: time zone out of five incl. LINT-14 and AOE12 which are never on the same date, clock moved by 0 / 7 h / 3 days / -400 days / 10 years for everything that reads it through time or datetime, other user/home/host name, working directory, locale) and demands the bytes of the export made alone here; in the 'seeds' case every subprocess has its own environment as well as its own hash seed and history (the first two in the two time zones 26 hours apart). Four matrices in ten have families of frame and signal names that are no identifiers and become one name under a cleaning a writer may apply for its file (Temp.Out / Temp_Out / Temp-Out / 'Temp Out', Temp_Out / TEMP_OUT, anywhere in the matrix: two signals of a frame, signals of different frames, a frame and a signal; one member may really carry the cleaned name). Non-trivial = every distinct case (each exercises >= 1 writer).")
 EXHAUSTIVE = {"quick": False, "thorough": False}
 PARTIAL = ["the writers' footprint on their argument is recorded in the model by hand (copiesFirst/normalise); that the record is complete "
            "is established only by this correspondence check - the theorems carry least here",
@@ -91,7 +91,7 @@ def variant_of(d):
 
 def gen_own(rng, **kw):
     """the descriptions of C14's own streams"""
-    return gen_rare(rng, gen_desc(rng, own_names=True, spellings=True, listing=True, **kw))
+    return gen_rare(rng, gen_desc(rng, own_names=True, spellings=True, listing=True, related=True, **kw))
 
 
 def gen_rare(rng, d):
@@ -163,15 +163,63 @@ def gen_rare(rng, d):
     return d
 
 
-def gen_desc(rng, many_groups=False, common_prefix=False, own_names=False, spellings=False, listing=False):
+# characters a name may contain that are no part of an identifier of one language or another (lua, python, C, the formats' own
+# grammars); a writer that needs identifiers has to translate for its file only
+SEPARATORS = [".", "-", " ", "_", "__", ":", "/", "+", "#", "~", "@", "$"]
+
+
+def related_names(rng, d):
+    """families of names that are different names and become one name under some 'cleaning' a writer may apply for its file:
+    Temp.Out / Temp_Out / Temp-Out / 'Temp Out' (every character outside [A-Za-z0-9_] replaced), Temp_Out / TEMP_OUT / temp_out
+    (letter case), Temp_Out / Temp__Out (runs of separators).  The members are frames and signals anywhere in the matrix (two signals
+    of one frame, signals of different frames, a frame and a signal); one member may really carry the cleaned name.  Names of signals
+    stay different within a frame.  (Frames under a reserved name and the names longer than 32 characters keep their names.)"""
+    objs = [(None, f) for f in d["frames"] if f["name"] not in RESERVED_FRAME_NAMES and len(f["name"]) <= 32]
+    objs += [(k, sg) for k, f in enumerate(d["frames"]) for sg in f["signals"] if len(sg["name"]) <= 32]
+    fam = []
+    for n in range(rng.choice([1, 1, 2])):
+        if len(objs) < 2:
+            break
+        kind = rng.choice(["any", "any", "signals", "frames"])
+        pool = [o for o in objs if kind == "any" or (o[0] is None) == (kind == "frames")]
+        if len(pool) < 2:
+            pool = objs
+        members = rng.sample(pool, min(len(pool), rng.choice([2, 2, 3, 4])))
+        stem, tail = rng.choice([("Temp", "Out"), ("A", "B"), ("Oil", "Pressure_1"), ("x1", "y")])
+        how = rng.choice(["separators", "separators", "separators", "case"])
+        if how == "separators":
+            seps = rng.sample(SEPARATORS, len(members))
+            if "_" not in seps and rng.random() < 0.5:
+                seps[rng.randrange(len(seps))] = "_"          # one member really has the name the others clean to
+            names = [stem + sep + tail + (sep + "z" if rng.random() < 0.2 else "") for sep in seps]
+        else:
+            base = stem + rng.choice(["_", "."]) + tail
+            spelt = sorted({base, base.upper(), base.lower(), base.swapcase()})
+            members = members[:len(spelt)]
+            names = rng.sample(spelt, len(members))
+        if n:
+            names = [x + "2" for x in names]
+        for (k, o), name in zip(members, names):
+            objs = [x for x in objs if x[1] is not o]
+            o["name"] = name
+        fam.append(names)
+    d["related_names"] = fam
+    return d
+
+
+def gen_desc(rng, many_groups=False, common_prefix=False, own_names=False, spellings=False, listing=False, related=False):
     """own_names: the caller's objects may carry names the formats reserve, definitions under the writers' names, texts outside ASCII
     (C14's own streams ask for it; other users of this generator, C20, get the descriptions they always got)
     spellings: one number occurs in several spellings in one matrix (0.5 and 0.50, 1 and 1.00, 100 and 1E+2), as files have them
     listing: the signals of a multiplexed frame are listed in any order (not by multiplexer value, the multiplexer anywhere), frames
     carry the attributes by which sym sorts them into its SEND / RECEIVE / SENDRECEIVE sections: the writers visit the objects of
-    one matrix in different orders"""
+    one matrix in different orders
+    related: frames and signals carry names that are no identifiers (Temp.Out, 'Temp Out', A-B) and that differ from each other only
+    in such characters or in letter case (related_names)"""
     d = _gen_desc(rng, many_groups, common_prefix, own_names)
     fr = d["frames"]
+    if related and rng.random() < 0.4:
+        related_names(rng, d)
     if spellings and rng.random() < 0.6:
         sigs = [sg for f in fr for sg in f["signals"]]
         for sg in sigs:
@@ -845,6 +893,8 @@ def features(case, impl):
             if mv != sorted(mv) or (mv and f["signals"][0].get("mux") != "Multiplexor"):
                 yield "multiplexed signals not listed by multiplexer value"
                 break
+        if m.get("related_names"):
+            yield "names that are no identifiers and differ only in such characters or in letter case"
         if any(m.get("sections") or []):
             yield "frames in sym's SEND / RECEIVE sections"
         if m.get("rare") is not None:
